@@ -17,6 +17,8 @@ def compile_vf(spec, vectorize=False, backend='default', style=None, step_size=1
         template, _ = build.build_python(spec, style=style)
     kw.setdefault('float_precision', 'float64')
     kw.setdefault('in_place', False)
+    if spec is not None and spec.get('node_values'):
+        kw.setdefault('node_values', build.node_values_kw(spec))
     import os as _os
     kw.setdefault('clear', _os.environ.get('VERIF_KEEP') != '1')   # public reset after each compile: checks other than C13 must not depend on leaks
     func, args, names, smap = template.get_run_func('vf', step_size=step_size, backend=backend, vectorize=vectorize,
@@ -229,6 +231,8 @@ def run_model(spec, T, dt, solver='euler', dts=None, cutoff=0.0, outputs=None, b
         template, _ = build.build_python(spec, style=style)
     kw.setdefault('float_precision', 'float64')
     kw.setdefault('clear', True)
+    if spec is not None and spec.get('node_values'):
+        kw.setdefault('node_values', build.node_values_kw(spec))
     res = template.run(simulation_time=T, step_size=dt, sampling_step_size=dts, cutoff=cutoff, solver=solver,
                        outputs=outputs, backend=backend, vectorize=vectorize, inputs=inputs, verbose=False, **kw)
     return res
